@@ -14,6 +14,7 @@
 package c04
 
 import (
+	"strings"
 	"fmt"
 	"io"
 	"os"
@@ -378,6 +379,14 @@ func run(p *kernel.Plan) (res *kernel.Result) {
 			return res.Fail("C04/panic", "task %s: %v\n%s", t.Name, t.Panic, t.Stack)
 		}
 		if s.Err != nil {
+			for _, u := range s.Stuck {
+				if strings.HasSuffix(u, "@blocked-in-library") {
+					// no gate of the race engine is inside a critical section of the
+					// library, so a task that never leaves the library is blocked on
+					// a lock nobody will release
+					return res.Fail("C04/no-progress", "deadlock inside the library: %v %v", s.Err, s.Stuck)
+				}
+			}
 			return res.Fail("harness/race-engine-run", "%v %v", s.Err, s.Stuck)
 		}
 		return res
